@@ -242,18 +242,72 @@ func (t *tr) bindHelper(fd *ast.FuncDecl, recv ast.Expr, c *ast.CallExpr, sp Spe
 		t2.alias(k, v)
 	}
 	if recv != nil && fd.Recv != nil && len(fd.Recv.List) == 1 && len(fd.Recv.List[0].Names) == 1 {
-		t2.alias(fd.Recv.List[0].Names[0].Name, t.subst(recv))
+		if a := t.subst(recv); src(a) != fd.Recv.List[0].Names[0].Name {
+			t2.alias(fd.Recv.List[0].Names[0].Name, a)
+		}
 	}
 	i := 0
 	for _, f := range fd.Type.Params.List {
 		for _, n := range f.Names {
 			if i < len(c.Args) {
-				t2.alias(n.Name, t.subst(c.Args[i]))
+				if a := t.subst(c.Args[i]); src(a) != n.Name {
+					t2.alias(n.Name, a)
+				}
 			}
 			i++
 		}
 	}
 	return t2, i == len(c.Args)
+}
+
+// unwrap: a function that only wraps a same-file helper — ignored statements (locking, logging) around `v := helper(args…)` …
+// `return v`, or `return helper(args…)` — is translated as that helper's body with its parameters standing for the arguments
+// (state variables and all: the helper may assign through the receiver it was handed). Repeats for wrappers of wrappers.
+func (t *tr) unwrap(fd *ast.FuncDecl) (*ast.FuncDecl, *tr) {
+	for depth := 0; depth < 3; depth++ {
+		var core []ast.Stmt
+		for _, st := range fd.Body.List {
+			switch x := st.(type) {
+			case *ast.ExprStmt:
+				if t.ignoredCall(x.X) {
+					continue
+				}
+			case *ast.DeferStmt:
+				if t.ignoredCall(x.Call) {
+					continue
+				}
+			}
+			core = append(core, st)
+		}
+		var call *ast.CallExpr
+		switch len(core) {
+		case 1:
+			if r, ok := core[0].(*ast.ReturnStmt); ok && len(r.Results) == 1 {
+				call, _ = r.Results[0].(*ast.CallExpr)
+			}
+		case 2:
+			as, ok1 := core[0].(*ast.AssignStmt)
+			r, ok2 := core[1].(*ast.ReturnStmt)
+			if ok1 && ok2 && len(as.Lhs) == 1 && len(as.Rhs) == 1 && len(r.Results) == 1 && src(as.Lhs[0]) == src(r.Results[0]) {
+				call, _ = as.Rhs[0].(*ast.CallExpr)
+			}
+		}
+		if call == nil {
+			return fd, t
+		}
+		hfd, recv := t.resolveHelper(call)
+		if hfd == nil || hfd.Body == nil || hfd == fd {
+			return fd, t
+		}
+		t2, ok := t.bindHelper(hfd, recv, call, t.sp)
+		if !ok {
+			return fd, t
+		}
+		t2.depth = t.depth
+		t2.fd = hfd
+		fd, t = hfd, t2
+	}
+	return fd, t
 }
 
 // inlineErr: for a call to a same-file helper whose last result is `error`, the Lean Bool "the helper returned an error",
@@ -522,7 +576,7 @@ func leanIdent(name string) string { return name + "_" }
 
 func (t *tr) lvalue(e ast.Expr) string {
 	s := src(e)
-	if v, ok := t.sp.Vars[s]; ok {
+	if v, ok := lookup(t.sp.Vars, s); ok {
 		return v
 	}
 	if id, ok := e.(*ast.Ident); ok {
@@ -541,7 +595,7 @@ func (t *tr) expr(e ast.Expr) string {
 	if id, ok := e.(*ast.Ident); ok && t.opaque[id.Name] {
 		failf(e, "use of %s, whose defining expression is outside the translatable subset", id.Name)
 	}
-	if v, ok := t.sp.Vars[s]; ok {
+	if v, ok := lookup(t.sp.Vars, s); ok {
 		return v
 	}
 	if n, ok := t.sp.Status[s]; ok {
